@@ -333,6 +333,12 @@ func (cs *ContractSet) loadFile(path, pkg string, external bool) error {
 				cl := mkClause("decreases", body)
 				cl.Loop = k
 				cur.Decreases = append(cur.Decreases, cl)
+			case "unroll":
+				n, err := strconv.Atoi(f[2])
+				if err != nil {
+					return fmt.Errorf("%s:%d: bad unroll count", rl.file, rl.line)
+				}
+				cur.Unroll[k] = n
 			default:
 				return fmt.Errorf("%s:%d: unknown loop clause %q", rl.file, rl.line, f[1])
 			}
